@@ -61,6 +61,17 @@ func symView(maxb int) *memFS {
 func VH_C06_sender() {
 	maxb, nreq := v.Param("MAXB", 2), v.Param("NREQ", 2)
 	view := symView(maxb)
+	if v.Param("OPENERR", 0) != 0 {
+		// a file that was announced but can no longer be opened when it is requested (it vanished
+		// after the walk); what the sender then delivers for it is not asserted here (see the C04
+		// known finding), but the id is used up all the same
+		for _, e := range view.entries {
+			if os.FileMode(e.stat.Mode)&os.ModeType == 0 && v.Bool("open-fails") {
+				e.openErr = true
+				v.Cover("open-fails")
+			}
+		}
+	}
 	ctx := context.Background()
 	snd, rcv := newStreamPair(ctx, 256)
 	var sendErr error
@@ -136,7 +147,9 @@ func VH_C06_sender() {
 			}
 			got = append(got, p.Data...)
 		}
-		v.Assert(string(got) == string(view.entries[id].data), "DATA payloads concatenate to the file bytes, ended by one empty DATA")
+		if !view.entries[id].openErr {
+			v.Assert(string(got) == string(view.entries[id].data), "DATA payloads concatenate to the file bytes, ended by one empty DATA")
+		}
 	}
 	if !valid {
 		<-done
@@ -156,6 +169,101 @@ func VH_C06_sender() {
 	err = rcv.RecvMsg(&p)
 	v.Assert(err != nil, "nothing is sent after the FIN echo")
 	v.Assert(progressOK && finals == 1, "progress is non-decreasing and ends with exactly one final call")
+	v.Assert(v.Goroutines() == 0, "every sender goroutine has ended")
+	v.Cover("fin")
+}
+
+// VH_C06_burst: the reference receiver sends its whole request script back to back (no waiting
+// for the content of one file before asking for the next) and then sorts the DATA packets by id,
+// whatever their interleaving: every requested id gets its bytes in order and exactly one
+// terminator, nothing arrives for ids that were not requested or after an id's terminator, and a
+// script containing a repeated, non-regular or never-announced id makes Send fail.
+func VH_C06_burst() {
+	maxb, nreq := v.Param("MAXB", 1), v.Param("NREQ", 3)
+	view := symView(maxb)
+	ctx := context.Background()
+	snd, rcv := newStreamPair(ctx, 256)
+	var sendErr error
+	done := make(chan struct{})
+	go func() {
+		sendErr = Send(ctx, snd, view, nil)
+		snd.CloseSend()
+		close(done)
+	}()
+	var stats []*types.Stat
+	for {
+		var p types.Packet
+		if err := rcv.RecvMsg(&p); err != nil {
+			v.Assert(false, "stream ended before the end-of-stats marker")
+			return
+		}
+		if p.Stat == nil {
+			break
+		}
+		stats = append(stats, p.Stat)
+	}
+	n := 1 + v.Choose("nreq", nreq)
+	requested := map[uint32]bool{}
+	var order []uint32
+	valid := true
+	for r := 0; r < n; r++ {
+		id := uint32(v.Choose("req", len(stats)+1))
+		isRegular := int(id) < len(stats) && os.FileMode(stats[id].Mode)&os.ModeType == 0
+		if !isRegular || requested[id] {
+			valid = false
+		}
+		if !requested[id] {
+			order = append(order, id)
+		}
+		requested[id] = true
+		if err := rcv.SendMsg(&types.Packet{Type: types.PACKET_REQ, ID: id}); err != nil {
+			break
+		}
+	}
+	if valid {
+		v.Cover("valid-burst")
+	} else {
+		v.Cover("invalid-burst")
+	}
+	got := map[uint32][]byte{}
+	ended := map[uint32]bool{}
+	nEnded := 0
+	for !valid || nEnded < len(order) {
+		var p types.Packet
+		if err := rcv.RecvMsg(&p); err != nil {
+			v.Assert(!valid, "stream ended before every requested file was delivered")
+			break
+		}
+		if p.Type != types.PACKET_DATA {
+			v.Assert(!valid && p.Type == types.PACKET_ERR, "only DATA packets answer requests")
+			continue
+		}
+		v.Assert(requested[p.ID], "DATA only for requested ids")
+		v.Assert(!ended[p.ID], "nothing follows the terminator of an id")
+		if len(p.Data) == 0 {
+			ended[p.ID] = true
+			nEnded++
+		} else {
+			got[p.ID] = append(got[p.ID], p.Data...)
+		}
+	}
+	if !valid {
+		<-done
+		v.Assert(sendErr != nil, "an invalid request id in a burst makes Send fail")
+		v.Assert(v.Goroutines() == 0, "every sender goroutine has ended")
+		return
+	}
+	for _, id := range order {
+		v.Assert(string(got[id]) == string(view.entries[id].data), "per id the DATA payloads concatenate to the file bytes")
+	}
+	if err := rcv.SendMsg(&types.Packet{Type: types.PACKET_FIN}); err != nil {
+		return
+	}
+	var p types.Packet
+	err := rcv.RecvMsg(&p)
+	v.Assert(err == nil && p.Type == types.PACKET_FIN, "FIN is echoed")
+	<-done
+	v.Assert(sendErr == nil, "Send returns success after the FIN handshake")
 	v.Assert(v.Goroutines() == 0, "every sender goroutine has ended")
 	v.Cover("fin")
 }
